@@ -77,6 +77,24 @@ func jobsFor(id, tier string) []*Job {
 	}
 	_ = wmk
 	switch id {
+	case "C06":
+		var sp [][]int
+		for r := 0; r < 10; r++ {
+			for sh := 0; sh < 3; sh++ {
+				sp = append(sp, []int{r, sh, 3})
+			}
+		}
+		add(split(wmk("step", "zzverifw.H_C06_step", sp))...)
+		var pp [][]int
+		for sh := 0; sh < 12; sh++ {
+			pp = append(pp, []int{sh, 12, 0})
+		}
+		if thorough {
+			for sh := 0; sh < 12; sh++ {
+				pp = append(pp, []int{sh, 12, 1}) // symbolic payloads
+			}
+		}
+		add(split(wmk("pair", "zzverifw.H_C06_pair", pp))...)
 	case "C03":
 		var bp [][]int
 		for np := 0; np <= 3; np++ {
@@ -236,6 +254,8 @@ func assumptionsFor(id string) []string {
 		"harness oracles written from the property statement and docs (DESIGN.md Appendix B)",
 	}
 	switch id {
+	case "C06":
+		return append(common, "fingerprint = deep structure of every live value (element / pair / bound identities by Go pointer, scalar payloads, key lists, prototype pointer), taken when the value is created and compared after every operation", "operations are called through Obj.callProp(receiver, name, argument); I/O and evaluation properties (p, puts, print, import, invite!, exit, assert*, eval, evalEnv, decJSON, S, repr, tap, try, then) are not operations on values and are skipped", "native Go slices inside the engine have the same 16-byte element size as []object.PanObject, so append growth and spare capacity are those of the real runtime")
 	case "C03":
 		return append(common, "binding oracle: parameter i <- argument i or nil; keyword <- passed value or default; \\0 = the arguments (padded with nil up to the parameter count, as the implementation documents), \\_ = exactly the passed keywords, \\N / \\ / \\name defined only for what was received", "scoping scenarios are fixed programs with two symbolic int inputs; expected values are closed-form")
 	case "C04":
@@ -273,6 +293,10 @@ func assumptionsFor(id string) []string {
 func boundsFor(id, tier string, jobs []*Job) map[string]interface{} {
 	b := map[string]interface{}{"tier": tier}
 	switch id {
+	case "C06":
+		b["pool"] = "10 live values: array built by a literal (spare capacity), str, object with nested array, map with array key, range, int, float, function, bear child, nested array"
+		b["single_step"] = "receiver: each pool value; property: EVERY name reachable from its prototype chain (solver choice); argument: none or one of 7 pool values (solver choice)"
+		b["two_steps"] = "first any Arr property on the literal array with argument [7] / 2 / function; then one of 8 array-building properties (+ * append prepend zip chain map rev) on the same receiver or on the first result; payloads concrete (quick) and symbolic ints in (1, 100) (thorough)"
 	case "C03":
 		b["binding"] = "0..3 positional and 0..2 keyword parameters (all 12 signatures) x 0..4 positional arguments (tail optionally as *[...]) x each of k1, k2 and the unknown zz absent / before the positionals / after them / through **{...} (solver choices)"
 		b["scoping"] = "14 scenarios (closure sees later reassignment, never the caller's scope, assignment and compound assignment stay local, sibling isolation, recursion frames, shadowing, function-making functions, receiver first, receiver-less chain, fresh frame per call, closures made in a chain, nested closures, method scope) with inputs a, b any int in (-10^6, 10^6)"
@@ -373,6 +397,8 @@ func boundsFor(id, tier string, jobs []*Job) map[string]interface{} {
 
 func outsideFor(id string) []string {
 	switch id {
+	case "C06":
+		return []string{"sequences longer than two operations", "properties with two or more arguments", "iterators (mutable by design)", "variables (reassignment is allowed)", "I/O and eval properties", "values reachable only through closures"}
 	case "C03":
 		return []string{"pattern-matching parameters (unimplemented in the code)", "programs outside the scenario list (no generated-program reference evaluator was built)", "duplicate keyword arguments (C08)", "iterators' recur arguments", "more than 4 positional arguments or 3 keywords"}
 	case "C04":
